@@ -1,5 +1,5 @@
 /* libQt5Core boundary: QListData (the out-of-line part of QList<T>); the inline template code is real (translated).
-   Local variant of models/qt_list.c for C20: blocks keep begin == LD_B (= 1), so array[0] is a spare slot in front of the
+   Local variant of models/qt_list.c for C20: blocks keep begin == LD_B (= 2), so array[0..1] are spare slots in front of the
    elements.  Reason: libstdc++'s std::__unguarded_linear_insert has no range guard (it relies on a sentinel established by its
    caller); during symbolic execution the one iteration too many that cannot be excluded syntactically then reads/writes the
    spare slot instead of the begin/end words of the block header (which would make every later list operation symbolic).
@@ -8,15 +8,29 @@
 #ifndef LIST_CAP
 #define LIST_CAP 6
 #endif
-#define LD_B 1u
-struct ld { uint32_t ref, alloc, begin, end; char *array[LIST_CAP + 1]; };
-static char *vp_ld_zero[8];   /* what the spare slot points to: an all-zero object (an empty, unshared value of any pointer-sized handle type) */
+#define LD_B 2u   /* >= (largest list handed to std::sort) - 1: the unguarded insertion loop of element k is cut after k+1 evaluations of its condition */
+#if LIST_CAP != 6
+#error ld_new initialises exactly 8 slots
+#endif
+struct ld { uint32_t ref, alloc, begin, end; char *array[LIST_CAP + LD_B]; };
+/* what unused slots point to: an object that reads as an empty model string block (size 0, hint 0, data offset QS_OFF - the same
+   constant offset as every other string block, so `d->offset` folds to a constant for if-then-else pointers) and as a null
+   d-pointer for handle classes (first word 0) */
+#ifdef HAVE_T_struct_QArrayData
+static struct qs vp_ld_spare = { { {{{{{ 0 }}}}}, 0, 0, QS_OFF } };
+#define vp_ld_zero (&vp_ld_spare)
+#else
+static char *vp_ld_zero[8];
+#endif
 #ifdef HAVE_G__ZN9QListData11shared_nullE
 GT__ZN9QListData11shared_nullE G__ZN9QListData11shared_nullE = { {{{{ (uint32_t)-1 }}}}, 0, 0, 0, {{0}} };
 #endif
 #define LD(self) (*(struct ld**)(self))
 #define LD_N(x) ((x)->end - (x)->begin)
-static struct ld *ld_new(uint32_t n) { struct ld *t = malloc(sizeof(struct ld)); ASSUME(t != 0); ASSERT(n <= LIST_CAP, "QList capacity of the model exceeded"); t->ref = 1; t->alloc = LIST_CAP; t->begin = LD_B; t->end = LD_B + n; t->array[0] = (char*)vp_ld_zero; return t; }
+static struct ld *ld_new(uint32_t n) { struct ld *t = malloc(sizeof(struct ld)); ASSUME(t != 0); ASSERT(n <= LIST_CAP, "QList capacity of the model exceeded"); t->ref = 1; t->alloc = LIST_CAP; t->begin = LD_B; t->end = LD_B + n;
+  /* every slot starts out pointing to the all-zero object: no path ever reads an indeterminate pointer */
+  t->array[0] = (char*)vp_ld_zero; t->array[1] = (char*)vp_ld_zero; t->array[2] = (char*)vp_ld_zero; t->array[3] = (char*)vp_ld_zero; t->array[4] = (char*)vp_ld_zero; t->array[5] = (char*)vp_ld_zero; t->array[6] = (char*)vp_ld_zero; t->array[7] = (char*)vp_ld_zero;
+  return t; }
 void _ZN9QListData7disposeEPNS_4DataE(char *d) { /* blocks are never recycled */ }
 void _ZN9QListData7disposeEv(char *self) { }
 char* _ZN9QListData6detachEi(char *self, uint32_t alloc) { struct ld *x = LD(self); uint32_t n = LD_N(x); struct ld *t = ld_new(alloc ? n : 0); LD(self) = t; return (char*)x; }
